@@ -3,7 +3,60 @@ package stream
 import (
 	"context"
 	"errors"
+	"sync"
 )
+
+// native replay only: the window between Merge's internal cancellation and the recording of the
+// failing input's error is a few nanoseconds. vHammerMergeError runs many merges of one failing
+// input and many inputs parked in Next and reports whether the merged stream ever returned
+// something else than the failing input's error.
+type vParkedSrc struct {
+	parked *sync.WaitGroup
+	once   sync.Once
+}
+
+func (s *vParkedSrc) Next(ctx context.Context) (int, error) {
+	s.once.Do(s.parked.Done)
+	<-ctx.Done()
+	return 0, ctx.Err()
+}
+func (s *vParkedSrc) Close() {}
+
+type vFailWhenParked struct {
+	parked *sync.WaitGroup
+	err    error
+}
+
+func (s *vFailWhenParked) Next(ctx context.Context) (int, error) {
+	s.parked.Wait()
+	return 0, s.err
+}
+func (s *vFailWhenParked) Close() {}
+
+var vHammeredMerge int // at most a few times per replay process
+
+func vHammerMergeError(E error) bool {
+	if vHammeredMerge >= 4 {
+		return false
+	}
+	vHammeredMerge++
+	const siblings = 48
+	for trial := 0; trial < 2000; trial++ {
+		var parked sync.WaitGroup
+		parked.Add(siblings)
+		in := []Stream[int]{&vFailWhenParked{parked: &parked, err: E}}
+		for i := 0; i < siblings; i++ {
+			in = append(in, &vParkedSrc{parked: &parked})
+		}
+		m := Merge[int](in...)
+		_, err := m.Next(context.Background())
+		m.Close()
+		if err != E {
+			return true
+		}
+	}
+	return false
+}
 
 //verif:pkg ./stream
 // VerifStreamMerge args: inputs k, items per input, error position on input 0 (-1 none),
@@ -91,6 +144,9 @@ func VerifStreamMerge(k int, n int, errPos int, closeAfter int, errKind int) {
 		vAssert(failing && err == E, "C12:smerge/reports-the-first-input-error")
 		gotErr = true
 		break
+	}
+	if vNative() && failing && k >= 2 && closeAfter < 0 {
+		vAssert(!vHammerMergeError(E), "C12:smerge/reports-the-first-input-error")
 	}
 	if closeAfter < 0 {
 		vAssert(ended || gotErr, "C12:smerge/finishes-when-inputs-do")
